@@ -236,6 +236,9 @@ class CFG:
                             discr_src[l] = p.local
                         if p.is_local and p.local in st:
                             discr_of[l] = st[p.local][1]
+                        elif not p.is_local and _is_payload0(p) and (p.local, 0) in st and st[(p.local, 0)][0] != "bool":
+                            # match on the payload of a value whose payload variant is known: `Ok(None)` vs `Ok(Some(_))`
+                            discr_of[l] = st[(p.local, 0)][1]
                     elif k in ("ref", "rawptr"):
                         p = Place(rv["p"])
                         if rv.get("mut") and p.local in st:
